@@ -3,4 +3,7 @@ import LicenseExpr.Props.C07
 #print axioms LE.C07_nf
 #print axioms LE.C07_nf_any_order
 #print axioms LE.C07_atom_order_total
+#print axioms LE.C07_idem
+#print axioms LE.C07_idem_any_order
+#print axioms LE.C07_absorb_free
 #print axioms LE.C07_sort_idem_partial
